@@ -7,10 +7,12 @@ import (
 	"fmt"
 	"iter"
 	"math/rand/v2"
+	"os"
 	"sort"
 	"strconv"
 	"strings"
 	"sync"
+	"sync/atomic"
 	"time"
 
 	"github.com/cilium/statedb"
@@ -138,7 +140,8 @@ func (g *tableGen) reg(id string) string {
 }
 
 var tagPool = []string{"", "a", "ab", "abc", "b", "\x00", "\x00\x01", "\x01", "a\x00", "\xff"}
-var pfxPool = []tPfx{{[]byte{0x0a, 0x00}, 8}, {[]byte{0x0a, 0x01}, 16}, {[]byte{0x0a, 0x80}, 9}, {[]byte{0x00, 0x00}, 0}, {[]byte{0xc0, 0xa8}, 16}, {[]byte{0xc0, 0x00}, 4}, {[]byte{0x0a, 0x01}, 12}, {[]byte{0x0b, 0xff}, 15}}
+var pfxPool = []tPfx{{[]byte{0x0a, 0x00}, 8}, {[]byte{0x0a, 0x01}, 16}, {[]byte{0x0a, 0x80}, 9}, {[]byte{0x00, 0x00}, 0}, {[]byte{0xc0, 0xa8}, 16}, {[]byte{0xc0, 0x00}, 4}, {[]byte{0x0a, 0x01}, 12}, {[]byte{0x0b, 0xff}, 15},
+	{[]byte{0x0a, 0xff}, 8}, {[]byte{0x0a, 0x0f}, 12}, {[]byte{0xc0, 0xff}, 4}, {[]byte{0xff, 0xff}, 0}} // non-canonical: same key as another member after masking
 
 func (g *tableGen) obj(table string) string {
 	r := g.r
@@ -161,7 +164,14 @@ func (g *tableGen) obj(table string) string {
 		ts = strings.Join(tags, ",")
 	}
 	var pf []string
-	if table == "m" {
+	if table == "m" && r.IntN(6) == 0 {
+		// the same prefix twice in non-canonical form (both mask to one key)
+		if r.IntN(2) == 0 {
+			pf = []string{"x0a00/8", "x0aff/8"}
+		} else {
+			pf = []string{"x0a0f/12", "x0a01/12"}
+		}
+	} else if table == "m" {
 		for i := r.IntN(3); i > 0; i-- {
 			p := pfxPool[r.IntN(len(pfxPool))]
 			s := fmt.Sprintf("%s/%d", hx(p.Data), p.Len)
@@ -278,6 +288,133 @@ func genTable(cfg Config, emit func(string, bool, []string)) {
 	for c := 0; c < n; c++ {
 		g := &tableGen{r: newRand(cfg.Seed, uint64(300+c)), ord: map[string]int{}}
 		r := g.r
+		if c%10 == 5 {
+			// iterator closed while it still has unobserved deletions: nothing may stay
+			// retained once the collector has handled the triggers the close produced
+			nit := 1 + r.IntN(2)
+			g.add("wtxn m")
+			for i := 0; i < nit; i++ {
+				g.add("changes m")
+			}
+			for i := 0; i < 4; i++ {
+				g.add("ins m %s %d 0 - - 0 %d", hx([]byte{'d', byte(i)}), i, i+1)
+			}
+			g.add("commit")
+			g.nsnap++
+			if r.IntN(2) == 0 {
+				g.add("rtxn")
+				g.nsnap++
+				g.add("next 0 s%d -1", g.nsnap-1)
+				if r.IntN(2) == 0 {
+					g.add("gcidle")
+				}
+			}
+			g.add("wtxn m")
+			g.add("del m %s", hx([]byte{'d', byte(r.IntN(4))}))
+			g.add("del m %s", hx([]byte{'d', byte(r.IntN(4))}))
+			g.add("commit")
+			g.nsnap++
+			if nit == 2 {
+				g.add("rtxn")
+				g.nsnap++
+				g.add("next 1 s%d -1", g.nsnap-1)
+				g.add("gcidle")
+				g.add("glen - m")
+				g.add("cclose 1")
+				g.add("gcidle")
+				g.add("glen - m")
+			}
+			g.add("ccloserace 0")
+			g.add("gcidle")
+			g.add("glen - m")
+			g.add("gcidle")
+			emit("table close-with-unobserved-deletions", true, g.ops)
+			continue
+		}
+		if c%10 == 9 {
+			// long quiet period: nodes of the LPM trie (and of the radix trees) that are not
+			// written for ~256 transactions while an early snapshot is retained, then written
+			// through one after the other (transaction-id stamps must not wrap or be reused)
+			g.add("wtxn m")
+			for k := 0; k < 18; k++ {
+				g.add("ins m %s %d 0 - %s/8 0 %d", hx([]byte{'q', byte(k)}), k, hx([]byte{byte(0xc0 + k), 0}), k+1)
+			}
+			g.add("commit")
+			g.nsnap++
+			g.add("rtxn")
+			g.nsnap++
+			g.add("prefix s1 m lpm x0000/0")
+			g.add("all s1 m")
+			quiet := 240 + r.IntN(4) // the probes below run with LPM transaction ids quiet+2 .. quiet+15, around 257
+			for i := 0; i < quiet; i++ {
+				g.add("wtxn m")
+				g.add("ins m x7a %d 0 - %s/16 0 50", i, hx([]byte{0x0a, byte(i)}))
+				g.add("commit")
+				g.nsnap++
+			}
+			for k := 0; k < 18; k++ {
+				g.add("wtxn m")
+				// a more specific prefix below the k-th quiet node: the write goes through that node
+				g.add("ins m %s %d 0 - %s/16 0 %d", hx([]byte{'p', byte(k)}), k, hx([]byte{byte(0xc0 + k), 0x80}), 100+k)
+				if k%4 == 3 {
+					g.add("prefix s1 m lpm x0000/0")
+					g.add("abort")
+				} else {
+					g.add("commit")
+					g.nsnap++
+				}
+				g.add("prefix s1 m lpm x0000/0")
+				g.add("list s1 m lpm %s/16", hx([]byte{byte(0xc0 + k), 0x80}))
+				g.add("all s1 m")
+			}
+			g.add("rtxn")
+			g.nsnap++
+			g.add("prefix s%d m lpm x0000/0", g.nsnap-1)
+			emit("table long-quiet", true, g.ops)
+			continue
+		}
+		if c%10 == 7 {
+			// threshold walker at table level: objects sharing a primary-key stem and one tag,
+			// removed one per transaction across the radix node size boundaries, with watches
+			// on the affected index nodes taken from the snapshot just before
+			top := []int{52, 19, 7}[r.IntN(3)]
+			g.add("wtxn m")
+			var ids []string
+			for i := 0; i < top; i++ {
+				id := string([]byte{'k', byte(3*i + 1)})
+				ids = append(ids, id)
+				g.add("ins m %s %d 0 x74 - 0 %d", hx([]byte(id)), i, i+1)
+			}
+			g.add("commit")
+			g.nsnap++
+			r.Shuffle(len(ids), func(i, j int) { ids[i], ids[j] = ids[j], ids[i] })
+			for i := 0; i < 7 && i < len(ids); i++ {
+				g.add("rtxn")
+				g.nsnap++
+				h := fmt.Sprintf("s%d", g.nsnap-1)
+				g.add("prefixw %s m id x6b", h)
+				g.add("listw %s m tags x74", h)
+				g.add("getw %s m tags x74", h)
+				g.add("prefixw %s m tags x74", h)
+				g.add("lbw %s m id x6b", h)
+				g.add("allw %s m", h)
+				g.add("getw %s m id %s", h, hx([]byte(ids[i])))
+				g.add("getw %s m id x6bfe", h)
+				g.add("wtxn m")
+				if i%3 == 2 {
+					g.add("ins m %s %d 0 - - 0 %d", hx([]byte(ids[i])), 900+i, 60+i) // key-changing update: tag removed
+				} else {
+					g.add("del m %s", hx([]byte(ids[i])))
+				}
+				g.add("commit")
+				g.nsnap++
+			}
+			for s := 0; s < g.nsnap; s++ {
+				g.sweep(fmt.Sprintf("s%d", s), 4)
+			}
+			emit(fmt.Sprintf("table walker top=%d", top), true, g.ops)
+			continue
+		}
 		withIters := c%2 == 0
 		withInit := c%3 == 0
 		openIters := []int{}
@@ -381,7 +518,14 @@ func genTable(cfg Config, emit func(string, bool, []string)) {
 				case 3:
 					if len(openIters) > 0 && r.IntN(2) == 0 {
 						k := r.IntN(len(openIters))
-						g.add("cclose %d", openIters[k])
+						if r.IntN(2) == 0 {
+							g.add("gcapply")
+							g.add("ccloserace %d", openIters[k])
+							g.add("gcidle")
+							g.add("glen - m")
+						} else {
+							g.add("cclose %d", openIters[k])
+						}
 						openIters = append(openIters[:k], openIters[k+1:]...)
 					}
 				}
@@ -477,24 +621,27 @@ type tIter struct {
 }
 
 type tableExec struct {
-	db         *statedb.DB
-	m, a       statedb.RWTable[*tObj]
-	wtxn       statedb.WriteTxn
-	lastHandle statedb.WriteTxn
-	memo       map[string]string
-	gcDead     bool
-	wtables    string
-	snaps      []statedb.ReadTxn
-	srefs      []*refDB
-	committed  *refDB
-	txnRef     *refDB
-	txnBase    *refDB // committed state when the write txn started
-	watches    []*watchRecT
-	names      map[<-chan struct{}]string
-	iters      []*tIter
-	dones      []func(statedb.WriteTxn)
-	doneInfo   []string
-	initWatch  []*watchRecT
+	db            *statedb.DB
+	m, a          statedb.RWTable[*tObj]
+	wtxn          statedb.WriteTxn
+	lastHandle    statedb.WriteTxn
+	memo          map[string]string
+	closerGoid    atomic.Int64
+	closerParked  chan struct{}
+	closerRelease chan struct{}
+	gcDead        bool
+	wtables       string
+	snaps         []statedb.ReadTxn
+	srefs         []*refDB
+	committed     *refDB
+	txnRef        *refDB
+	txnBase       *refDB // committed state when the write txn started
+	watches       []*watchRecT
+	names         map[<-chan struct{}]string
+	iters         []*tIter
+	dones         []func(statedb.WriteTxn)
+	doneInfo      []string
+	initWatch     []*watchRecT
 
 	// graveyard worker control
 	gcMu               sync.Mutex
@@ -502,8 +649,8 @@ type tableExec struct {
 	gcRelease          chan struct{}
 	gcAt               string
 	txnRejectedCASOnly bool
-	txnWrites map[string]int
-	txnRejects map[string]int
+	txnWrites          map[string]int
+	txnRejects         map[string]int
 }
 
 func newTableExec(h string) *tableExec {
@@ -522,10 +669,20 @@ func newTableExec(h string) *tableExec {
 	e.committed = &refDB{m: &refTable{objs: map[string]refObj{}, grave: map[string]uint64{}}, a: &refTable{objs: map[string]refObj{}, grave: map[string]uint64{}}}
 	e.gcParked = make(chan string, 4)
 	e.gcRelease = make(chan struct{})
+	e.closerParked = make(chan struct{})
+	e.closerRelease = make(chan struct{})
 	statedb.VerifSetHook(func(point string) {
 		if strings.HasPrefix(point, "gc-") {
+			if os.Getenv("VERIF_DEBUG") != "" {
+				fmt.Fprintln(os.Stderr, "gc hook", point)
+			}
 			e.gcParked <- point
 			<-e.gcRelease
+			return
+		}
+		if point == "commit-before-rootlock" && e.closerGoid.Load() == goid() {
+			e.closerParked <- struct{}{}
+			<-e.closerRelease
 		}
 	})
 	e.db.Start()
@@ -979,6 +1136,7 @@ func (e *tableExec) do(o *Out, f []string) string {
 		e.wtxn = nil
 		e.txnRef = nil
 		e.afterTxn(o, false)
+		e.abortBattery(o)
 		return "ok"
 	case "rtxn":
 		e.snaps = append(e.snaps, e.db.ReadTxn())
@@ -1181,6 +1339,85 @@ func (e *tableExec) do(o *Out, f []string) string {
 			// nothing is retained for nobody (collected at the next run)
 		}
 		return "ok"
+	case "ccloserace":
+		// Close() with the collector released in the middle of the close's own commit
+		if e.wtxn != nil || e.gcAt == "gc-scanned" {
+			return "bad-op"
+		}
+		i, _ := strconv.Atoi(f[1])
+		ci := e.iters[i]
+		done := make(chan struct{})
+		go func() {
+			e.closerGoid.Store(goid())
+			ci.it.Close()
+			e.closerGoid.Store(0)
+			close(done)
+		}()
+		select {
+		case <-e.closerParked:
+			// was the collector already triggered, before the tracker removal is committed?
+			if e.gcAt == "" {
+				select {
+				case p := <-e.gcParked:
+					e.gcAt = p
+				case <-time.After(40 * time.Millisecond):
+				}
+			}
+			if e.gcAt == "gc-triggered" {
+				// the collector's lock-free scan runs now, before the close commits
+				// (its write transaction would block on the table lock the close holds)
+				o.Notes["collector scan while a close is in progress"]++
+				e.gcUntil("gc-scanned")
+			}
+			e.closerRelease <- struct{}{}
+			<-done
+		case <-done:
+		case <-time.After(3 * time.Second):
+			return "timeout"
+		}
+		ci.closed = true
+		e.committed.t(ci.table).ntrack--
+		return "ok"
+	case "gcidle":
+		// let the collector handle the triggers the implementation itself produced; nothing is forced
+		if e.wtxn != nil {
+			return "bad-op"
+		}
+		ran := false
+		if e.gcAt == "gc-scanned" {
+			ran = true
+			if r := e.gcUntil("gc-committed", "gc-nothing"); r == "timeout" || r == "gave-up" {
+				return r
+			}
+		}
+		if os.Getenv("VERIF_DEBUG") != "" {
+			fmt.Fprintln(os.Stderr, "gcidle start gcAt=", e.gcAt)
+		}
+		for k := 0; k < 4; k++ {
+			if e.gcAt == "gc-committed" || e.gcAt == "gc-nothing" {
+				e.gcAt = ""
+				e.gcRelease <- struct{}{}
+			}
+			if e.gcAt == "" {
+				select {
+				case p := <-e.gcParked:
+					e.gcAt = p
+				case <-time.After(40 * time.Millisecond):
+				}
+			}
+			if e.gcAt != "gc-triggered" {
+				break
+			}
+			ran = true
+			if r := e.gcUntil("gc-committed", "gc-nothing"); r == "timeout" || r == "gave-up" {
+				return r
+			}
+		}
+		e.afterGC(o)
+		if ran {
+			return "ran"
+		}
+		return "idle"
 	case "gc":
 		if e.wtxn != nil {
 			return "bad-op"
@@ -1665,3 +1902,37 @@ func (e *tableExec) doNext(o *Out, f []string) string {
 }
 
 var _ = bytes.Equal
+
+// abortBattery (C02): after Abort a fresh snapshot must show exactly the
+// committed state through every index
+func (e *tableExec) abortBattery(o *Out) {
+	rtx := e.db.ReadTxn()
+	type q struct {
+		tn, kind, idx, key string
+		plen               int
+	}
+	qs := []q{{"m", "lb", "id", "", 0}, {"m", "lb", "tags", "", 0}, {"m", "lb", "u", "", 0}, {"m", "prefix", "lpm", "x0000", 0},
+		{"m", "prefix", "ulpm", "x0000", 0}, {"a", "lb", "id", "", 0}, {"a", "lb", "tags", "", 0}}
+	for _, x := range qs {
+		query := e.mkQuery(x.tn, x.idx, x.key, x.plen)
+		var got []refObj
+		if x.kind == "lb" {
+			got = collectSeq(e.tbl(x.tn).LowerBound(rtx, query))
+		} else {
+			got = collectSeq(e.tbl(x.tn).Prefix(rtx, query))
+		}
+		want, _ := e.specQuery(e.committed.t(x.tn), x.kind, x.idx, x.key, x.plen)
+		if !eqROs(got, want) {
+			o.Fail("C02", "abort-left-a-trace", map[string]string{"index": x.idx}, fmt.Sprintf("after Abort a fresh snapshot answers %s(%s,%s) with [%s]; the committed state gives [%s]", x.kind, x.tn, x.idx, showROs(got), showROs(want)))
+		}
+	}
+	for _, tn := range []string{"m", "a"} {
+		if r := e.tbl(tn).Revision(rtx); r != e.committed.t(tn).rev {
+			o.Fail("C02", "abort-left-a-trace", map[string]string{"index": "revision"}, fmt.Sprintf("table %s has revision %d after Abort, committed revision is %d", tn, r, e.committed.t(tn).rev))
+		}
+		ok, _ := e.tbl(tn).Initialized(rtx)
+		if ok != (len(e.committed.t(tn).pending) == 0) {
+			o.Fail("C02", "abort-left-a-trace", map[string]string{"index": "init"}, fmt.Sprintf("table %s Initialized=%v after Abort", tn, ok))
+		}
+	}
+}
